@@ -134,6 +134,7 @@ Proof.
   destruct p as [| | |e n|e k|e x|l]; try exact HM.
   - now rewrite (psize_ext c m m' e H).
   - rewrite (H (KC k)). now rewrite (psize_ext c m m' e H).
+  - unfold resolve_usize. rewrite (resolve_ext c KUsize 32 m m' x H). now rewrite (psize_ext c m m' e H).
 Qed.
 
 Lemma list_sizes_ext d defs m m' : kequiv m m' -> list_sizes d defs m = list_sizes d defs m'.
@@ -1056,6 +1057,7 @@ Proof.
   destruct p as [| | |e n|e k|e x|l]; try exact G.
   - apply S.
   - apply bind_nofuel; [apply of_option_nofuel|]. intro. apply S.
+  - apply bind_nofuel; [apply resolve_nofuel|]. intro. apply S.
 Qed.
 
 (* for well-typed definitions (references only to earlier consts: acyclic) and acceptable
